@@ -378,8 +378,8 @@ def subj_manager(mx, ttl):
 def subj_detlru(cap, uog, uop):
     from clematis.engine.util.lru_det import DeterministicLRU
 
-    ops = [("put", k, v) for k in KEYS + ["d"] for v in (0, 1)] + [("get", k) for k in KEYS + ["d"]] + \
-          [("contains", k) for k in KEYS] + [("pop",), ("clear",)]
+    ops = [("put", k, v) for k in KEYS + ["d"] for v in (0, 1, None)] + [("get", k) for k in KEYS + ["d"]] + \
+          [("contains", k) for k in KEYS] + [("pop",), ("clear",)]  # None is a storable value (get takes an explicit default)
 
     def make():
         return DeterministicLRU(cap, update_on_get=uog, update_on_put=uop), MDetLRU(cap, uog, uop), None
